@@ -37,6 +37,9 @@ def main(argv=None) -> int:
     try:
         idx = index_mod.Index(repo=index_mod.REPO)
         mod.run(idx, rep, args.tier)
+        from .props.extra import run_extra
+
+        run_extra(prop, idx, rep, args.tier)
         if args.tier == "thorough" and not args.no_selftest and not args.repo:
             from .selftest import run_selftest
 
